@@ -371,6 +371,26 @@ pub fn check(e: &Engine) {
 		&strategy,
 		&run,
 	);
+	e.explore(
+		"behavioural",
+		LegOpts::realtime(e.tier.pick(40, 1_000), 8, "behavioural variant with the real native and poll watchers: after each run-time path-set change (3 dirs incl. a nested one, recursion-mode flips), touching files under configured paths must be observed"),
+		&|| {
+			use crate::props::realfs::{FsStep, RealFsCase};
+			// reconfiguration-heavy: alternate path-set changes and file operations
+			(any::<bool>(), proptest::collection::vec(((1u8..8, 0u8..8), 0u8..3, any::<bool>()), 2..5))
+				.prop_map(|(poll, rounds)| {
+					let mut steps = Vec::new();
+					for ((mask, rec), dir, deep) in rounds {
+						steps.push(FsStep::SetPaths { mask, rec });
+						steps.push(FsStep::Create { dir, deep });
+						steps.push(FsStep::Write { dir });
+					}
+					RealFsCase { poll, steps }
+				})
+				.boxed()
+		},
+		&super::realfs::run,
+	);
 	e.require_label("random", "during-apply", 0.2);
 	e.require_label("random", "failure-hit", 0.1);
 }
